@@ -22,8 +22,10 @@ flags: --memory-leak-check
 #include "vprelude.h"
 #include <pcre.h>
 /* ASSUMES: pcre_compile returns NULL (pattern rejected) or a block obtained from malloc that the caller frees */
+int vg_pcre_calls, vg_pcre_last_opts;      /* ghost: what the library asked pcre to compile with */
 pcre *pcre_compile(const char *pat, int opts, const char **err, int *erroff, const unsigned char *tab)
 {
+    vg_pcre_calls++; vg_pcre_last_opts = opts;
     __CPROVER_assert(pat != NULL && __CPROVER_r_ok(pat, 1), "pcre_compile: pattern is a readable string");
     if (nondet_bool()) { *err = "bad"; *erroff = 0; return NULL; }
     return (pcre *) malloc(32);
@@ -45,9 +47,14 @@ void harness(void)
     vg_k = nondet_size_t();
     r = spif_regexp_new_from_ptr((spif_charptr_t) text);
     __CPROVER_assume(r != NULL);
+    r->flags = nondet_int();                     /* any flag word (set_flags only ever ORs option bits in) */
     if (nondet_bool()) spif_regexp_compile(r);
+    int calls0 = vg_pcre_calls;
     d = spif_regexp_dup(r);
     ENS(d != NULL && d != r);
+    /* the copy is compiled, and with the original's flags (a copy that reports the flags but was compiled
+     * without them does not match like the original) */
+    ENS(vg_pcre_calls > calls0 && vg_pcre_last_opts == r->flags);
     ENS(SPIF_STR(d)->s != NULL && SPIF_STR(d)->s != SPIF_STR(r)->s);            /* own text buffer */
     ENS(SPIF_STR(d)->len == SPIF_STR(r)->len);
     ENS(!(vg_k < (size_t) SPIF_STR(r)->len) || SPIF_STR(d)->s[vg_k] == SPIF_STR(r)->s[vg_k]);
